@@ -14,7 +14,7 @@ E2_NOTE = ("Trusted: reference models inside wsm written from the statement (han
 
 P = {
     "C01": ("wsx+pymon", "exploration", "4/C01",
-            "runtime monitoring: real library client and server driven through the public API by a Python driver; oracle = both accept and keys byte-identical, accessors round-trip; classes (zero bytes of S, negative base, padding) measured by white-box model recomputation from logged RNG draws",
+            "runtime monitoring: real library client and server driven through the public API by a Python driver; oracle = both accept and keys byte-identical, accessors round-trip; classes (zero bytes of S, negative base, padding) measured by white-box model recomputation from logged RNG draws; history workloads: 16 threads of one process logging in at once (> 2^16 logins in one process), clones dropped/consumed before use, other-module calls and other announced moduli earlier in the process, credentials colliding under common 32-bit hashes",
             "Honest logins are executed for real (about 150k per quick run, millions in thorough) with credentials over the whole alphabet, case variants, re-import, boundary salts/keys and a steering corpus that reaches S with 1, 2 and 3 low-order zero bytes on the built-in group; a sampled quantifier over inputs cannot be proved by running, so the level is exploration with measured class coverage.",
             E1_NOTE + " Corpus entries are inputs only and are re-validated by the model on every run."),
     "C02": ("wsx+pymon", "exploration", "4/C02",
@@ -30,7 +30,7 @@ P = {
             "The two refused encodings and the accept-and-return-unchanged rule are checked on billions of inputs including the complete family of arrays made of zero bytes and bytes of N (exhaustive for that sub-space in the thorough tier), plus the server's own B and the client's own A.",
             E2_NOTE + " Own-key paths use the E1 trusted base."),
     "C05": ("wsx+pymon", "exploration", "4/C05",
-            "runtime monitoring of histories: per SrpServer a random history of reconnect attempts over 10 kinds; online checker: verdict == model proof equality for the accessor-read challenge, and the challenge after every attempt is new; kind-pair matrix coverage",
+            "runtime monitoring of histories: per SrpServer a random history of reconnect attempts over 12 kinds (incl. cancelling proof changes and client data aliasing the challenge); online checker: verdict == model proof equality for the accessor-read challenge, and the challenge after every attempt is new; kind-pair matrix coverage; histories served by a fresh thread per attempt; one history of 66,000 attempts",
             "Histories of up to 100 attempts per authenticated server object with real randomness; every attempt is judged and the challenge refresh is checked after accepted and rejected attempts alike. The 10x10 matrix of consecutive kinds must be covered, else the run says so.",
             E1_NOTE),
     "C06": ("wsx+pymon", "exploration", "4/C06",
@@ -58,7 +58,7 @@ P = {
             "The fault space (header kind x failure offset x error kind x fragmentation x interruption) is enumerated completely for every sample, crossed with sampled keys, sizes, opcodes and positions in a conversation; after each failed read the decrypter is checked behaviourally (retransmitted header decodes, stream in step) and for the 5-byte Wrath header the later-supplied fifth byte must complete it.",
             E2_NOTE + " Readers/writers that fragment, interrupt and fail are part of the harness."),
     "C12": ("wsm + Miri", "exploration", "4/C12",
-            "runtime monitoring of histories over {encrypt, decrypt, split, clone, unsplit} against two separate per-direction models; unsplit key-pair sweeps (all 320 one-bit differences); halves on two OS threads natively and under Miri's scheduler seeds and data-race detector",
+            "runtime monitoring of histories over {encrypt, decrypt (raw and typed), split, clone, unsplit, replacement of the sending half} against two separate per-direction models; two-step Wrath headers with clone/split/other use between the steps; unsplit key-pair sweeps (all 320 one-bit differences, reordered words, cancelling differences, an old half against 768k later objects); objects handed from thread to thread; halves on two OS threads natively and under Miri's scheduler seeds and data-race detector",
             "Interleavings are sampled (op 3-gram coverage reported); schedules are the native rounds and the Miri seeds listed in the evidence, no claim beyond them.",
             E2_NOTE + " Miri's soundness for what it reports."),
     "C13": ("wsm", "exploration", "4/C13",
